@@ -132,7 +132,7 @@ Definition get_dial_addr (url_addr dial_addr default_port : list N) : list N :=
   | _ :: _ =>
     if is_unix_addr dial_addr then dial_addr
     else let '(h, p) := try_split_host_port dial_addr in
-         match p with [] => join_host_port h default_port | _ :: _ => dial_addr end
+         match p with [] => join_host_port (try_trim_brackets h) default_port | _ :: _ => dial_addr end
   | [] =>
     let '(h, p) := try_split_host_port url_addr in
     match p with [] => join_host_port h default_port | _ :: _ => url_addr end
